@@ -48,6 +48,10 @@ Proof. vm_compute. reflexivity. Qed.
 (* net.go, bind/flag.go *)
 Lemma ob_net_wrap : net_wraps_if_any_positive = true /\ net_args_read_then_write = true.
 Proof. vm_compute. split; reflexivity. Qed.
+(* the limiter is the outermost wrapper of every listener, the PROXY-protocol one included; extra listeners
+   (MultiListener) carry their own ListenerConfig, limits included *)
+Lemma ob_listener_stacking : ratelimit_wraps_proxyproto = true /\ multilistener_copies_whole_config = true.
+Proof. vm_compute. split; reflexivity. Qed.
 Lemma ob_flag_fields :
   flag_read_limit_field = b "ReadLimit" /\ flag_write_limit_field = b "WriteLimit".
 Proof. vm_compute. split; reflexivity. Qed.
